@@ -141,7 +141,8 @@ def v2_valid(rnd):
         exp = {'kind': 'addr', 'ip': canon(socket.AF_INET6, src), 'port': sp}
         h = v2_header(cmd, 2, proto, addr + tlv)
     elif r < 0.9:
-        p1 = rnd.choice([b'/tmp/sock', b'', b'a' * 108, b'/x\xff'])
+        # (abstract-namespace addresses start with a NUL; only the padding at the end is not part of the address)
+        p1 = rnd.choice([b'/tmp/sock', b'', b'a' * 108, b'/x\xff', b'\0abstract-name', b'/a\0b', b'\0\0x', b'\0' + b'z' * 107])
         addr = p1.ljust(108, b'\0') + b'/dst'.ljust(108, b'\0')
         exp = {'kind': 'unix', 'path': list(p1.rstrip(b'\0'))}
         h = v2_header(cmd, 3, proto, addr + tlv)
